@@ -431,6 +431,7 @@ class Func:
 
 _LET = re.compile(r'^\s*let (?:mut )?(_\d+): (.*);$', re.M)
 _BLOCK = re.compile(r'^    (bb\d+)(?: \(cleanup\))?: \{\n(.*?)^    \}', re.M | re.S)
+_PROMOTED = re.compile(r'^const (.*::promoted\[\d+\]): ([^=]*?) = \{')
 _HEAD = re.compile(r'^fn (.*?)\((.*)\) -> (.*?)\s*$', re.S)
 
 
@@ -444,6 +445,11 @@ def parse_mir(text):
         if it.startswith('// MIR FOR CTFE'):
             # the following `fn` item is the const-eval copy of a constructor; skip it
             ctfe = True
+            continue
+        pm = _PROMOTED.match(it)
+        if pm:
+            head, _, body = it.partition(' = {\n')
+            funcs[pm.group(1)] = Func(pm.group(1), [], pm.group(2).strip(), body)
             continue
         if not it.startswith('fn '):
             continue
